@@ -275,7 +275,7 @@ func runC08(c *ev.Ctx) {
 	if c.Thorough() {
 		phases = []phase{{"one mutation anywhere (trees <= 6 nodes)", 6, 4, 1}, {"two mutations anywhere (trees <= 5 nodes)", 5, 4, 2}, {"three mutations anywhere (trees <= 3 nodes)", 3, 3, 3}}
 	}
-	c.Rule("for every list/object-rooted tree t over leaves {nil,1,1.5,\"s\"}, keys {a,b} (also with every list given spare private capacity first, and - for trees with nested containers - reached through 7 other construction routes: lists that are SubList / Concat / NewListOf results, the tree parsed from its own text, a Clone of a Clone, objects that are Merge / Pluck results): c := t.Clone(); initial check: equal content (model walk + Equals both ways) and no container handle reachable from c is reachable from t; then explicit-state BFS over mutation histories applied at ANY node of t or of c out of 13 list mutations (Add, Insert, Replace, Delete, Pop, Clear, Reverse, Sort, 4 tree-form writes, adding a new nested list) and 9 object mutations (Set, Unset, Clear, 4 tree-form writes, setting a new nested object) - after every mutation both trees are observed completely and must equal the two-heap model (only the mutated node changed).")
+	c.Rule("for every list/object-rooted tree t over leaves {nil,1,1.5,\"s\"}, keys {a,b} (also with every list given spare private capacity first, and - for trees with nested containers - reached through 7 other construction routes: lists that are SubList / Concat / NewListOf results, the tree parsed from its own text, a Clone of a Clone, objects that are Merge / Pluck results, equal scalars sharing one field object, nested containers that are user types embedding List/Object): c := t.Clone(); initial check: equal content (model walk + Equals both ways) and no container handle reachable from c is reachable from t; then explicit-state BFS over mutation histories applied at ANY node of t or of c out of 13 list mutations (Add, Insert, Replace, Delete, Pop, Clear, Reverse, Sort, 4 tree-form writes, adding a new nested list) and 9 object mutations (Set, Unset, Clear, 4 tree-form writes, setting a new nested object) - after every mutation both trees are observed completely and must equal the two-heap model (only the mutated node changed).")
 	c.Assume("start trees are enumerated exhaustively up to the stated size; mutation values are fixed representatives (9, a fresh container)")
 	en := spec.NewEnum([]*spec.V{spec.NilV, spec.I(1), spec.F(1.5), spec.S("s")}, []string{"a", "b"})
 	for _, ph := range phases {
@@ -291,7 +291,7 @@ func runC08(c *ev.Ctx) {
 				// the same tree reached through other construction routes (SubList / Concat / NewListOf results,
 				// parsed text, clone of a clone, Merge / Pluck results): only for trees that contain a nested container
 				if ph.len == 1 && (v.Depth() >= 3 || (v.Depth() == 2 && hasNested(v))) {
-					for _, route := range []int{2, 3, 4, 5, 6, 7, 8} {
+					for _, route := range []int{2, 3, 4, 5, 6, 7, 8, 9, 10} {
 						inits = append(inits, c08Init(v, route))
 					}
 				}
@@ -312,7 +312,7 @@ func runC08(c *ev.Ctx) {
 				return "", ""
 			},
 			Key: func(w W) string { return w.Key() }, MaxDepth: ph.len,
-			Describe: func(w W) string { return "original | clone = " + w.Describe() }}
+			Describe: func(w W) string { return "original | clone = " + w.Describe() }, Touch: func(w W) { w.Touch() }}
 		// initial clone check (content / Equals) on every start state
 		for i, mk := range inits {
 			if i%16 == 0 && c.Expired() {
